@@ -165,7 +165,7 @@ func (m *Model) oneBlock(scn int, st *chainmc.State, a Action, c *chainmc.Ctx) *
 	switch a.Jump {
 	case 1, 2:
 		nb := world.NextBoundary(A, now)
-		if nb == 0 || nb > st.Now+100000 {
+		if nb == 0 || nb > st.Now+864000 {
 			return nil
 		}
 		if a.Jump == 1 {
